@@ -308,18 +308,103 @@ func runC27(c *Ctx) {
 
 func runC28(c *Ctx) {
 	ld := srvFn(c, "routeCacheLoader")
-	cmpCount := func(name string, truth bool) func(g *Fn, fs *FactSet) bool {
-		return func(g *Fn, fs *FactSet) bool {
-			return fs.Cmp(func(e, tag ast.Expr, t bool, fa *Fact) bool {
-				be, ok := e.(*ast.BinaryExpr)
-				if !ok || tag != nil || be.Op != token.EQL || t != truth {
-					return false
+	// The three counters are identified by their roles, not their names: the total is the
+	// variable (or constant) worth NumRedundantLinks; the not-found counter is the one
+	// incremented where the job's error is known to be fs.ErrNotExist; the error counter the
+	// one incremented where it is known to be neither nil nor fs.ErrNotExist.
+	// known(fs, isSubj, isVal): +1 the facts say subj == val, -1 they say subj != val, 0 neither
+	// (comparisons in either operand order, either polarity, or a tagged switch on subj).
+	known := func(g *Fn, fs *FactSet, isSubj, isVal func(e ast.Expr) bool) int {
+		res := 0
+		fs.Cmp(func(e, tag ast.Expr, truth bool, fa *Fact) bool {
+			if tag != nil {
+				if isSubj(tag) && isVal(e) || isSubj(e) && isVal(tag) {
+					if truth {
+						res = 1
+					} else if res == 0 {
+						res = -1
+					}
 				}
-				a, b := types_ExprString(be.X), types_ExprString(be.Y)
-				return (a == "numLookup" && b == name) || (b == "numLookup" && a == name)
-			})
-		}
+				return false
+			}
+			be, ok := ast.Unparen(e).(*ast.BinaryExpr)
+			if !ok || be.Op != token.EQL && be.Op != token.NEQ {
+				return false
+			}
+			if !(isSubj(be.X) && isVal(be.Y) || isSubj(be.Y) && isVal(be.X)) {
+				return false
+			}
+			if (be.Op == token.EQL) == truth {
+				res = 1
+			} else if res == 0 {
+				res = -1
+			}
+			return false
+		})
+		return res
 	}
+	isJobErr := func(e ast.Expr) bool { return strings.Contains(ld.enclosing(e).Prov(e), "promise.All()#1") }
+	isNotExist := func(e ast.Expr) bool { return ld.enclosing(e).Prov(e) == "global:io/fs.ErrNotExist" }
+	isNilE := func(e ast.Expr) bool { return isNilIdent(ld.Info, e) }
+	var notFoundVar, errorVar *types.Var
+	// only the classification loop over the jobs' errors counts outcomes
+	inErrLoop := func(n ast.Node) bool {
+		in := false
+		ast.Inspect(ld.Body, func(x ast.Node) bool {
+			if rs, ok := x.(*ast.RangeStmt); ok && containsNode(rs.Body, n) && strings.Contains(ld.enclosing(rs).Prov(rs.X), "promise.All()#1") {
+				in = true
+			}
+			return !in
+		})
+		return in
+	}
+	nc := 0
+	ast.Inspect(ld.Body, func(x ast.Node) bool {
+		inc, ok := x.(*ast.IncDecStmt)
+		if !ok || inc.Tok != token.INC {
+			return true
+		}
+		v := ld.enclosing(inc).varOf(inc.X)
+		if v == nil || !inErrLoop(inc) {
+			return true
+		}
+		fs := ld.FactsAt(inc)
+		g := ld.enclosing(inc)
+		switch {
+		case known(g, fs, isJobErr, isNotExist) == 1:
+			nc++
+			notFoundVar = v
+			c.Ob("loader", "routeCacheLoader#count-not-found", inc.Pos(), true, "the not-found counter counts the slots whose job reported fs.ErrNotExist")
+		case known(g, fs, isJobErr, isNotExist) == -1 && known(g, fs, isJobErr, isNilE) == -1:
+			nc++
+			errorVar = v
+			c.Ob("loader", "routeCacheLoader#count-error", inc.Pos(), true, "the error counter counts the slots whose job reported any other error")
+		default:
+			c.Ob("loader", "routeCacheLoader#count:"+v.Name(), inc.Pos(), false, "a counter is incremented where the job's error is neither known to be fs.ErrNotExist nor known to be another non-nil error")
+		}
+		return true
+	})
+	c.Floor("loader counters", nc, 2)
+	isTotal := func(e ast.Expr) bool {
+		g := ld.enclosing(e)
+		if v, ok := g.ConstVal(e); ok {
+			return v == "3"
+		}
+		if lv := g.varOf(e); lv != nil {
+			defs := g.defsOf(lv)
+			if len(defs) == 1 && defs[0].rhs != nil && !defs[0].multi {
+				v, ok := g.enclosing(defs[0].rhs).ConstVal(defs[0].rhs)
+				return ok && v == "3"
+			}
+		}
+		return false
+	}
+	isVar := func(v *types.Var) func(e ast.Expr) bool {
+		return func(e ast.Expr) bool { return v != nil && ld.enclosing(e).varOf(e) == v }
+	}
+	// allEmpty / allErrored: what the facts at a node say about total == counter
+	allEmpty := func(fs *FactSet) int { return known(ld, fs, isTotal, isVar(notFoundVar)) }
+	allErrored := func(fs *FactSet) int { return known(ld, fs, isTotal, isVar(errorVar)) }
 	n := 0
 	ast.Inspect(ld.Body, func(x ast.Node) bool {
 		as, ok := x.(*ast.AssignStmt)
@@ -327,30 +412,33 @@ func runC28(c *Ctx) {
 			return true
 		}
 		lhs := types_ExprString(as.Lhs[0])
+		if i := strings.Index(lhs, "."); i >= 0 && ld.paramOrResult(as.Lhs[0]) {
+			lhs = "ret" + lhs[i:]
+		}
 		rhs := ld.Prov(as.Rhs[0])
 		rc := constName(ld, as.Rhs[0])
 		fs := ld.FactsAt(as)
 		switch {
 		case lhs == "ret.Value.err" && rhs == "global:spec/tun.ErrDestinationNotFound":
 			n++
-			c.Ob("loader", "routeCacheLoader#not-found-iff-all-empty", as.Pos(), cmpCount("numNotFound", true)(ld, fs), "not-found exactly when every slot was empty")
+			c.Ob("loader", "routeCacheLoader#not-found-iff-all-empty", as.Pos(), allEmpty(fs) == 1, "not-found exactly when every slot was empty")
 		case lhs == "ret.Value.err" && rhs == "global:spec/tun.ErrLookupFailed":
 			n++
-			c.Ob("loader", "routeCacheLoader#failed-iff-all-errored", as.Pos(), cmpCount("numError", true)(ld, fs) && cmpCount("numNotFound", false)(ld, fs), "lookup-failed exactly when every slot errored")
+			c.Ob("loader", "routeCacheLoader#failed-iff-all-errored", as.Pos(), allErrored(fs) == 1 && allEmpty(fs) == -1, "lookup-failed exactly when every slot errored")
 		case lhs == "ret.TTL" && rc == "routeNegativeTTL":
 			n++
-			c.Ob("loader", "routeCacheLoader#negative-ttl", as.Pos(), cmpCount("numNotFound", true)(ld, fs), "the negative TTL is used for the not-found result")
+			c.Ob("loader", "routeCacheLoader#negative-ttl", as.Pos(), allEmpty(fs) == 1, "the negative TTL is used for the not-found result")
 		case lhs == "ret.TTL" && rc == "routeFailedTTL":
 			n++
-			c.Ob("loader", "routeCacheLoader#failed-ttl", as.Pos(), cmpCount("numError", true)(ld, fs), "the failed TTL is used for the lookup-failed result")
+			c.Ob("loader", "routeCacheLoader#failed-ttl", as.Pos(), allErrored(fs) == 1, "the failed TTL is used for the lookup-failed result")
 		case lhs == "ret.TTL" && rc == "routePositiveTTL":
 			n++
-			c.Ob("loader", "routeCacheLoader#positive-ttl", as.Pos(), cmpCount("numNotFound", false)(ld, fs) && cmpCount("numError", false)(ld, fs), "the positive TTL is used only when routes are returned")
+			c.Ob("loader", "routeCacheLoader#positive-ttl", as.Pos(), allEmpty(fs) == -1 && allErrored(fs) == -1, "the positive TTL is used only when routes are returned")
 		case lhs == "ret.TTL":
 			c.Ob("loader", "routeCacheLoader#ttl:"+types_ExprString(as.Rhs[0]), as.Pos(), false, "unexpected TTL assignment")
 		case lhs == "ret.Value.routes":
 			n++
-			c.Ob("loader", "routeCacheLoader#routes-result", as.Pos(), cmpCount("numNotFound", false)(ld, fs) && cmpCount("numError", false)(ld, fs) && rhs == "call:util/promise.All()#0[?*ast.SliceExpr]" || (cmpCount("numNotFound", false)(ld, fs) && cmpCount("numError", false)(ld, fs) && strings.Contains(rhs, "promise.All()#0")), "routes are returned only when neither all-empty nor all-errored; found "+rhs)
+			c.Ob("loader", "routeCacheLoader#routes-result", as.Pos(), allEmpty(fs) == -1 && allErrored(fs) == -1 && strings.Contains(rhs, "promise.All()#0"), "routes are returned only when neither all-empty nor all-errored; found "+rhs)
 		}
 		return true
 	})
@@ -367,51 +455,18 @@ func runC28(c *Ctx) {
 		at = noTTL[0].Ret.Pos()
 	}
 	c.Ob("loader", "routeCacheLoader#every-exit-sets-a-ttl", at, len(noTTL) == 0, fmt.Sprintf("on every path to every exit ret.TTL is assigned (a zero TTL means no expiry in the cache: the result would outlive even the positive ones); %d exit(s) reachable without an assignment", len(noTTL)))
-	// counters
-	nc := 0
-	ast.Inspect(ld.Body, func(x ast.Node) bool {
-		inc, ok := x.(*ast.IncDecStmt)
-		if !ok || inc.Tok != token.INC {
-			return true
-		}
-		name := types_ExprString(inc.X)
-		fs := ld.FactsAt(inc)
-		tagTrue := func(pred func(e ast.Expr) bool) bool {
-			return fs.Cmp(func(e, tag ast.Expr, truth bool, fa *Fact) bool {
-				return tag != nil && truth && strings.Contains(ld.Prov(tag), "promise.All()#1") && pred(e)
-			})
-		}
-		tagFalse := func(pred func(e ast.Expr) bool) bool {
-			return fs.Cmp(func(e, tag ast.Expr, truth bool, fa *Fact) bool {
-				return tag != nil && !truth && strings.Contains(ld.Prov(tag), "promise.All()#1") && pred(e)
-			})
-		}
-		isNotExist := func(e ast.Expr) bool { return ld.Prov(e) == "global:io/fs.ErrNotExist" }
-		isNil := func(e ast.Expr) bool { return isNilIdent(ld.Info, e) }
-		switch name {
-		case "numNotFound":
-			nc++
-			c.Ob("loader", "routeCacheLoader#count-not-found", inc.Pos(), tagTrue(isNotExist), "numNotFound counts the slots whose job reported fs.ErrNotExist")
-		case "numError":
-			nc++
-			c.Ob("loader", "routeCacheLoader#count-error", inc.Pos(), tagFalse(isNotExist) && tagFalse(isNil), "numError counts the slots whose job reported any other error")
-		}
-		return true
-	})
-	c.Floor("loader counters", nc, 2)
-	// numLookup and job table
+	// the total and the job table
 	okLookup := false
-	ast.Inspect(ld.Body, func(x ast.Node) bool {
-		if vs, ok := x.(*ast.ValueSpec); ok {
-			for i, nm := range vs.Names {
-				if nm.Name == "numLookup" && i < len(vs.Values) {
-					v, _ := ld.ConstVal(vs.Values[i])
-					okLookup = v == "3"
-				}
+	for _, nd := range shallowNodes(ld.Body) {
+		if be, ok := nd.(*ast.BinaryExpr); ok && (be.Op == token.EQL || be.Op == token.NEQ) {
+			if isTotal(be.X) && (isVar(notFoundVar)(be.Y) || isVar(errorVar)(be.Y)) || isTotal(be.Y) && (isVar(notFoundVar)(be.X) || isVar(errorVar)(be.X)) {
+				okLookup = true
 			}
 		}
-		return true
-	})
+		if sw, ok := nd.(*ast.SwitchStmt); ok && sw.Tag != nil && isTotal(sw.Tag) {
+			okLookup = true
+		}
+	}
 	c.Ob("loader", "routeCacheLoader#numLookup==NumRedundantLinks", ld.Decl.Pos(), okLookup, "the number of looked-up slots is NumRedundantLinks (3)")
 	for _, call := range ld.CallsTo(true, "spec/tun.RoutingKey") {
 		g := ld.enclosing(call)
